@@ -43,6 +43,7 @@ From Coq Require Import ZArith Reals List Floats.
 From G3 Require Import Model.Num Model.NumF Model.Base Model.Vec Model.Segment Model.Triangle Model.Loop Model.Polygon Model.Triangulation
   Theory.RInst Theory.LoopGeom Proofs.C05_pointtest Proofs.C01_tiling.
 From G3 Require Proofs.Mesh_witness.
+From G3 Require Import Model.PolyAux Proofs.C12_region Proofs.C01_polygon.
 From G3 Require Theory.Cyclic Theory.Winding Theory.Shoelace.
 Import ListNotations.
 
@@ -374,3 +375,92 @@ Theorem C01_sanitize_can_change :
     poly_get_closed_loop P = Ok Lm /\ snd (loop_close Lm) = Ok tt /\
     llen (fst (loop_close Lm)) = 16 /\ length (tris M) = 13.
 Proof. exists ex3_poly. exact ex3_sanitize_changes. Qed.
+
+(** * The tiling statement in terms of the POLYGON: outer outline and holes (proofs in Proofs/C01_polygon.v).
+    Composition of the theorems above (about the closed merged outline) with the region theorems of
+    Properties/C12_region.v (merged outline = outer outline minus the holes, each hole "oriented like the outer":
+    [oriented n h] = the stored list when the stored normals have the same direction, its reverse otherwise).
+    Hypotheses: the two decidable side conditions of C12 ([closed_loop_clean false P], [closed_loop_wf P]; the second
+    follows from bounded coordinates, [C12_region_bounded_coords_wf]); [stable_run P M]; [loop_close] keeps the vertex
+    list of the merged loop ([close_keeps]); the frame normal e1 x e2 is a positive multiple of the polygon's normal; the
+    ray is generic for the polygon's own vertices; q lies on no triangle edge; the Jordan hypotheses on the INPUT loops,
+    pointwise at q.  Exact tier. *)
+Theorem C01_polygon_def : forall (o e1 e2 : V3 R) (P : Poly R) (d q : Winding.P2) (hs : list (list Winding.P2)),
+  poly_outer2 o e1 e2 P = map (plane2 o e1 e2) (verts (pouter P)) /\
+  poly_holes2 o e1 e2 P = map (fun h => map (plane2 o e1 e2) (oriented (lnormal (pouter P)) h)) (pinner P) /\
+  holes_wn d q hs = fold_right Z.add 0%Z (map (fun l => Winding.wn d l q) hs) /\
+  holes_area2 hs = fold_right Rplus 0%R (map Shoelace.area2 hs) /\
+  (poly_generic o e1 e2 P d q <->
+   forall v, In v (verts (pouter P) ++ flat_map (@verts R) (pinner P)) -> Winding.hgt d q (plane2 o e1 e2 v) <> 0%R) /\
+  (close_keeps P <-> forall Lm : Loop R, poly_get_closed_loop P = Ok Lm -> verts (fst (loop_close Lm)) = verts Lm).
+Proof. intros. repeat split; intros H; exact H. Qed.
+
+(** the number of triangles containing q = winding number of the outer outline - sum over the holes *)
+Theorem C01_polygon_count : forall (o e1 e2 : V3 R) (P : Poly R) (M : Mesh R),
+  closed_loop_clean false P = true -> closed_loop_wf P = true -> stable_run P M -> close_keeps P -> frame_normal e1 e2 P ->
+  forall d q : Winding.P2, poly_generic o e1 e2 P d q ->
+    (forall a b c, In (a, b, c) (proj_tris o e1 e2 M) -> Winding.off_segs a b c q) ->
+    Z.of_nat (Winding.count_inside (proj_tris o e1 e2 M) q) =
+    (Winding.wn d (poly_outer2 o e1 e2 P) q - holes_wn d q (poly_holes2 o e1 e2 P))%Z.
+Proof. exact polygon_count. Qed.
+(** the exact tiling.  Jordan hypotheses on the input at q: the outer outline winds 0 or 1 times, every hole (oriented like
+    the outer) winds >= 0 times, the holes together at most as often as the outer (holes inside the outer, pairwise
+    disjoint).  Then: a point of the region (inside the outer, in no hole) lies in exactly one triangle; a point outside
+    the outer outline or in a hole lies in none; no two triangles overlap; in general the count is wn outer - sum holes *)
+Theorem C01_polygon_tile_exactly : forall (o e1 e2 : V3 R) (P : Poly R) (M : Mesh R),
+  closed_loop_clean false P = true -> closed_loop_wf P = true -> stable_run P M -> close_keeps P -> frame_normal e1 e2 P ->
+  forall d q : Winding.P2, poly_generic o e1 e2 P d q ->
+    (forall a b c, In (a, b, c) (proj_tris o e1 e2 M) -> Winding.off_segs a b c q) ->
+    (0 <= Winding.wn d (poly_outer2 o e1 e2 P) q <= 1)%Z ->
+    (forall l, In l (poly_holes2 o e1 e2 P) -> (0 <= Winding.wn d l q)%Z) ->
+    (holes_wn d q (poly_holes2 o e1 e2 P) <= Winding.wn d (poly_outer2 o e1 e2 P) q)%Z ->
+    (Winding.wn d (poly_outer2 o e1 e2 P) q = 1%Z -> (forall l, In l (poly_holes2 o e1 e2 P) -> Winding.wn d l q = 0%Z) ->
+       Winding.count_inside (proj_tris o e1 e2 M) q = 1 /\
+       exists a b c, In (a, b, c) (proj_tris o e1 e2 M) /\ Winding.inside_tri a b c q) /\
+    (Winding.wn d (poly_outer2 o e1 e2 P) q = 0%Z \/ (exists l, In l (poly_holes2 o e1 e2 P) /\ (0 < Winding.wn d l q)%Z) ->
+       Winding.count_inside (proj_tris o e1 e2 M) q = 0 /\
+       forall a b c, In (a, b, c) (proj_tris o e1 e2 M) -> ~ Winding.inside_tri a b c q) /\
+    (forall (l1 l2 l3 : list (Winding.P2 * Winding.P2 * Winding.P2)) (a b c a' b' c' : Winding.P2),
+       proj_tris o e1 e2 M = l1 ++ (a, b, c) :: l2 ++ (a', b', c') :: l3 ->
+       Winding.inside_tri a b c q -> Winding.inside_tri a' b' c' q -> False) /\
+    Winding.count_inside (proj_tris o e1 e2 M) q =
+    Z.to_nat (Winding.wn d (poly_outer2 o e1 e2 P) q - holes_wn d q (poly_holes2 o e1 e2 P)).
+Proof. exact polygon_tile_exactly. Qed.
+(** the areas: sum of the absolute triangle areas = area of the outer outline - areas of the holes (plane coordinates) ... *)
+Theorem C01_polygon_area_sum : forall (o e1 e2 : V3 R) (P : Poly R) (M : Mesh R),
+  closed_loop_clean false P = true -> closed_loop_wf P = true -> stable_run P M -> close_keeps P -> frame_normal e1 e2 P ->
+  Cyclic.tsum 0%R Rplus (fun a b c => Rabs (Shoelace.area2 [a; b; c])) (proj_tris o e1 e2 M) =
+  (Shoelace.area2 (poly_outer2 o e1 e2 P) - holes_area2 (poly_holes2 o e1 e2 P))%R.
+Proof. exact polygon_area_sum. Qed.
+(** ... = the polygon's stored area, under the hypotheses of [C12_region_net_area] (loops in one plane with the unit normal
+    e1 x e2 = the outer loop's stored normal; stored loop areas signed -- true of every loop closed by Loop3D::close,
+    [C12_region_closed_loops_have_signed_area]) and the polygon's own accounting ([C12_region_polygon_accounting]) *)
+Theorem C01_polygon_area_parea : forall (o e1 e2 : V3 R) (P : Poly R) (M : Mesh R),
+  closed_loop_clean false P = true -> closed_loop_wf P = true -> stable_run P M -> close_keeps P -> frame_normal e1 e2 P ->
+  lnormal (pouter P) = vcross e1 e2 -> vdot (vcross e1 e2) (vcross e1 e2) = 1%R -> planar_normals P -> signed_areas P ->
+  (parea P = larea (pouter P) - rsum (map larea (pinner P)))%R ->
+  Cyclic.tsum 0%R Rplus (fun a b c => Rabs (Shoelace.area2 [a; b; c])) (proj_tris o e1 e2 M) = parea P.
+Proof. exact polygon_area_parea. Qed.
+
+(** ** non-vacuity: the unit square with the triangular hole ([w1_poly]).  Binary64: the side conditions hold, [close] keeps the 9
+    vertices of the merged loop, the polygon's normal is the outer loop's normal (0,0,1), the run is sanitize-stable with 7
+    triangles; outer outline and oriented hole read in units of 1/20.  Over the reals, same data: Jordan hypotheses at both
+    sample points; region point: 1 - 0 = 1 triangle; point in the hole: 1 - 1 = 0 triangles; 400 - 18 = sum of triangle areas *)
+Example C01_polygon_nonvacuous :
+  (closed_loop_clean false Mesh_witness.w1_poly = true /\ closed_loop_wf Mesh_witness.w1_poly = true /\
+   closed_loop_hits Mesh_witness.w1_poly = true /\
+   pnormal Mesh_witness.w1_poly = lnormal (pouter Mesh_witness.w1_poly) /\
+   map fzp20 [pnormal Mesh_witness.w1_poly] = [(0, 0)%Z] /\ fz20 (vz (pnormal Mesh_witness.w1_poly)) = 20%Z /\
+   map fzp20 (verts (pouter Mesh_witness.w1_poly)) = ex2_outer /\
+   map (fun h => map fzp20 (oriented (lnormal (pouter Mesh_witness.w1_poly)) h)) (pinner Mesh_witness.w1_poly) = [ex2_hole] /\
+   (exists Lm : Loop float, poly_get_closed_loop Mesh_witness.w1_poly = Ok Lm /\ snd (loop_close Lm) = Ok tt /\
+      verts (fst (loop_close Lm)) = verts Lm /\ llen Lm = 9) /\
+   (exists M : Mesh float, stable_run Mesh_witness.w1_poly M /\ length (tris M) = 7)) /\
+  (let O2 := map zr ex2_outer in let H2 := [map zr ex2_hole] in let Ts := map (map3 zr) ex2_ears in
+   Winding.wn ex_d O2 ex2_q = 1%Z /\ holes_wn ex_d ex2_q H2 = 0%Z /\
+   Winding.wn ex_d O2 ex2_qhole = 1%Z /\ holes_wn ex_d ex2_qhole H2 = 1%Z /\
+   Z.of_nat (Winding.count_inside Ts ex2_q) = (Winding.wn ex_d O2 ex2_q - holes_wn ex_d ex2_q H2)%Z /\
+   Z.of_nat (Winding.count_inside Ts ex2_qhole) = (Winding.wn ex_d O2 ex2_qhole - holes_wn ex_d ex2_qhole H2)%Z /\
+   Shoelace.area2 O2 = 400%R /\ holes_area2 H2 = 18%R /\
+   Cyclic.tsum 0%R Rplus (fun a b c => Rabs (Shoelace.area2 [a; b; c])) Ts = (Shoelace.area2 O2 - holes_area2 H2)%R).
+Proof. split; [exact ex2_polygon_float | exact ex2_polygon_real]. Qed.
